@@ -69,8 +69,10 @@ def plan(tier, seed):
                            n=400000, secs=300, hard_timeout=700))
         for i in range(10):
             shards.append(dict(
-                name=f'rt{i}', mode='rt', kind='rt', secs=240, batch=[20, 40, 80][i % 3],
-                p_yield=[0.0, 0.02, 0.1, 0.2][i % 4], burners=[0, 4, 16][i % 3],
+                # (16 burner threads with 80 programs at once starved the clock threads
+                # of the interpreter lock: not one batch ended within the shard's time)
+                name=f'rt{i}', mode='rt', kind='rt', secs=240, batch=[20, 40, 60][i % 3],
+                p_yield=[0.0, 0.02, 0.1, 0.2][i % 4], burners=[0, 4, 8][i % 3],
                 oversleep=i % 2 == 0, slow=i % 3 != 1, hard_timeout=700))
         for p, (f, n) in enumerate(split(480000, 6)):
             shards.append(dict(name=f'nrt{p}', mode='nrt', kind='nrt', first_case=f,
